@@ -272,6 +272,8 @@ def run_check(check_id, tier, collect=False, plan_override=None):
                         w.results.append(res)
                     pending.remove(w)
                     finished.append(w)
+                elif res is not None and res.get("outcome") not in (None, "running"):
+                    pass    # final outcome written, slot removed, process still tearing down: not a hang
                 elif w.slot_age() > case_timeout and "--fork-each" not in w.extra:
                     # hang candidate: kill and treat like a crash with clause hang
                     w.reap()
